@@ -225,4 +225,5 @@ PROPERTY = Property(
     assumptions=["capacity is a multiple of num_envs and equal for both buffers (as train_off_policy builds them)",
                  "reference fuse written from the statement; rewards are powers of two so float32 sums are exact for gamma in {0,1/2,1}"],
     wanted_labels=["terminal-first", "terminal-middle", "terminal-last", "wrapped", "envs=2", "envs=3"],
+    fuzz=['nstep_random'],
 )
